@@ -19,7 +19,8 @@ REPO = os.environ.get("VERIF_REPO", "/repo")
 BUILD = os.path.join(VERIF, "build")
 COQ = os.path.join(VERIF, "coq")
 GEN = os.path.join(COQ, "generated")
-CARGO_TARGET = os.path.join(BUILD, "cargo")
+# VERIF_CARGO_SUFFIX: a separate target directory for instrumented builds (tools/coverage.sh)
+CARGO_TARGET = os.path.join(BUILD, "cargo" + os.environ.get("VERIF_CARGO_SUFFIX", ""))
 CARGO_TARGET_TR = os.path.join(BUILD, "cargo-tr")
 HARNESS_BIN = os.path.join(CARGO_TARGET, "debug", "harness")
 TRANSLATOR_BIN = os.path.join(CARGO_TARGET_TR, "debug", "verif-translator")
